@@ -27,3 +27,13 @@ pub proof fn lemma_roots_single(v: Seq<HctlTreeNode>)
     assert(v.drop_last().len() == 0);
     assert(roots_total(v.drop_last()) == 0);
 }
+// the canoniser counts variables in an i32 while scanning the rendered text of a (sub-)formula: texts shorter than 2^31 characters
+pub open spec fn rsmall(t: STree) -> bool { render(t).len() < i32::MAX }
+pub proof fn lemma_rsmall_children(t: STree)
+    requires rsmall(t)
+    ensures
+        t matches STree::Un(_, c) ==> rsmall(*c),
+        t matches STree::Bin(_, a, b) ==> rsmall(*a) && rsmall(*b),
+        t matches STree::Hyb(_, _, _, c) ==> rsmall(*c),
+{
+}
